@@ -12,7 +12,9 @@ def st_case(draw, families=("sl", "nldf", "sdmx", "nldf+sdmx")):
     # SDMX contracts the AOs shell by shell: include a generally contracted basis (several radial functions per shell)
     bases = ("sto-3g", "6-31g") if not model["sdmx"] else ("sto-3g", "6-31g", "cc-pvdz")
     mol = draw(G.st_mol(max_atoms=3 if model["nldf"] is None else 2, bases=bases, max_elec=18, levels=(0, 1)))
-    return {"mol": mol, "model": model, "dm": draw(G.st_dm()), "calc": draw(G.st_calc())}
+    # max_memory decides into how many blocks the grid is cut (2000 MB: one block for these molecules)
+    return {"mol": mol, "model": model, "dm": draw(G.st_dm()), "calc": draw(G.st_calc()),
+            "mem": draw(st.sampled_from([2000, 2000, 1.0, 0.05]))}
 
 
 def st_sl():
@@ -30,7 +32,8 @@ def st_sdmx():
 RULE = ("G-mol (1-3 atoms from H..Ne, sto-3g/6-31g, generic orientation, grid level 0-1) x G-dm (PSD, non-SCF: rotated "
         "core-Hamiltonian orbitals with fractional occupations; restricted or unrestricted) x G-model (synthetic mapped "
         "functional: semilocal mode, NLDF version/level/rho_mult/specs, SDMX class, evaluator kinds, spin mode, native or "
-        "libxc baselines, MappedXC/MappedXC2) x calc options (xmix, xc, xkernel, ckernel, plan type, interpolator). "
+        "libxc baselines, MappedXC/MappedXC2) x calc options (xmix, xc, xkernel, ckernel, plan type, interpolator) x "
+        "max_memory 2000 / 1 / 0.05 MB (grid processed in one or in many blocks). "
         "Oracle: two-step 4th-order directional finite difference of excsum(dm+hD) vs sum(vmat*D) per spin channel; "
         "nelec vs independent sum_g w_g rho(r_g) with pyscf eval_rho; vmat symmetric. Non-trivial: |E_ML| > 1e-4|E_xc| "
         "and |Tr(vD)| > 1e-6; distinct by (molecule class, model signature, spin, calc options).")
@@ -68,10 +71,14 @@ def _run(case, ctx):
             ctx.event("nlof:%s=%s" % (key, "0" if nl[key] == 0 else ">0"))
         ctx.event("nlof:dots=%d/%d" % (len(nl["l1_dots"]), len(nl["ld_dots"])))
 
+    mem = case.get("mem", 2000)
+    if mem != 2000:
+        ctx.event("grid_cut_into_blocks")
+
     def energy(dms):
         if uks:
-            return ni.nr_uks(mol, ks.grids, ks.xc, np.array(dms), max_memory=2000)
-        return ni.nr_rks(mol, ks.grids, ks.xc, dms[0], max_memory=2000)
+            return ni.nr_uks(mol, ks.grids, ks.xc, np.array(dms), max_memory=mem)
+        return ni.nr_rks(mol, ks.grids, ks.xc, dms[0], max_memory=mem)
 
     dms = [c["dm"] for c in chans]
     nelec, exc, vmat = energy(dms)
